@@ -179,6 +179,57 @@ var handmadeNestedOps = map[string][]*fedlab.Sel{
 	"merge-fields-drops-selection-below-list-of-lists": {fld("shapes", fld("cells", fld("__typename")), on("Sq", fld("cells", fld("id"))))},
 }
 
+// handmadeListReqConfig: a list-valued @requires input (knob listrequires) -- the shape of seeded regression C01-m9:
+//
+//	catalog: type Query { products: [Product] }  type Product @key(fields: "id") { id: ID! tags: [String]! }
+//	search:  type Product @key(fields: "id") { id: ID! tags: [String]! @external
+//	                                          tagLine: String @requires(fields: "tags")  tagCount: String! @requires(fields: "tags") }
+//
+// p1.tags = ["red", null, "blue"] (a null item is legal in [String]!), p2.tags = [], p3.tags = ["red", "red"].
+func handmadeListReqConfig() (*fedlab.Config, *fedlab.Universe) {
+	str := func() *fedlab.TypeRef { return fedlab.Named("String") }
+	super := &fedlab.Schema{Query: "Query", Types: []*fedlab.TypeDef{
+		{Kind: fedlab.KObject, Name: "Query", Fields: []*fedlab.FieldDef{{Name: "products", Type: fedlab.ListOf(fedlab.Named("Product"))}}},
+		{Kind: fedlab.KObject, Name: "Product", Fields: []*fedlab.FieldDef{
+			{Name: "id", Type: fedlab.NonNull(fedlab.Named("ID"))},
+			{Name: "tags", Type: fedlab.NonNull(fedlab.ListOf(str()))},
+			{Name: "tagLine", Type: str()},
+			{Name: "tagCount", Type: fedlab.NonNull(str())}}},
+	}}
+	cfg := &fedlab.Config{Super: super, Lookups: map[string]fedlab.Lookup{}, Subgraphs: []*fedlab.Subgraph{
+		{Name: "catalog", Types: []*fedlab.SubType{
+			{Name: "Query", Fields: []*fedlab.SubField{{Name: "products"}}},
+			{Name: "Product", Keys: []string{"id"}, Fields: []*fedlab.SubField{{Name: "id"}, {Name: "tags"}}}}},
+		{Name: "search", Types: []*fedlab.SubType{
+			{Name: "Query"},
+			{Name: "Product", Keys: []string{"id"}, Fields: []*fedlab.SubField{{Name: "id"}, {Name: "tags", External: true},
+				{Name: "tagLine", Requires: "tags"}, {Name: "tagCount", Requires: "tags"}}}}},
+	}}
+	sc := func(j *fedlab.J) *fedlab.FVal { return &fedlab.FVal{Kind: fedlab.FSc, JSON: j} }
+	ref := func(t, k string) *fedlab.FVal { return &fedlab.FVal{Kind: fedlab.FRef, Type: t, Key: k} }
+	req := func() *fedlab.FVal { return &fedlab.FVal{Kind: fedlab.FReq, Req: []string{"tags"}} }
+	product := func(k string, tags *fedlab.J) *fedlab.Entity {
+		return &fedlab.Entity{Type: "Product", Key: k, Fields: []fedlab.FV{{Name: "id", Val: sc(fedlab.JS(k))}, {Name: "tags", Val: sc(tags)},
+			{Name: "tagLine", Val: req()}, {Name: "tagCount", Val: req()}}}
+	}
+	uni := &fedlab.Universe{Ents: []*fedlab.Entity{
+		{Type: "Query", Key: "", Fields: []fedlab.FV{{Name: "products", Val: &fedlab.FVal{Kind: fedlab.FLst, Items: []*fedlab.FVal{
+			ref("Product", "p1"), ref("Product", "p2"), ref("Product", "p3")}}}}},
+		product("p1", fedlab.JA(fedlab.JS("red"), fedlab.JN(), fedlab.JS("blue"))),
+		product("p2", fedlab.JA()),
+		product("p3", fedlab.JA(fedlab.JS("red"), fedlab.JS("red"))),
+	}}
+	return cfg, uni
+}
+
+var handmadeListReqOps = map[string][]*fedlab.Sel{
+	// passes on a correct engine (regression guard, seeded regression C01-m9): the representation of p1 carries
+	// "tags":["red",null,"blue"]; were the items of [String]! rendered as non-nullable, p1 would be dropped from the batch
+	"requires-input-list-with-null-item": {fld("products", fld("id"), fld("tagLine"))},
+	// the same with a non-null dependent field and the input selected next to it
+	"requires-input-list-with-null-item-non-null-dependent": {fld("products", fld("id"), fld("tags"), fld("tagCount"))},
+}
+
 func fld(name string, sels ...*fedlab.Sel) *fedlab.Sel {
 	return &fedlab.Sel{Kind: fedlab.SField, Name: name, Sels: sels}
 }
@@ -233,8 +284,16 @@ func cmdHandmade(a map[string]string) {
 		cfg, uni = handmadeNestedConfig()
 		knobs = fedlab.Knobs{"interfaces": true, "lists": true, "nulls": true, "inlinefragments": true, "nestedlists": true}
 	}
+	if lsels, lok := handmadeListReqOps[a["name"]]; lok {
+		sels, ok = lsels, true
+		cfg, uni = handmadeListReqConfig()
+		knobs = fedlab.Knobs{"lists": true, "nonnull": true, "nulls": true, "requires": true, "listrequires": true}
+	}
 	if !ok {
 		fmt.Println("unknown name; known:")
+		for n := range handmadeListReqOps {
+			fmt.Println("  " + n)
+		}
 		for n := range handmadeOps {
 			fmt.Println("  " + n)
 		}
